@@ -33,8 +33,9 @@
 (*     identity token, helper); it may also restate the connection         *)
 (*     defaults derived from its key (both outcomes accepted), and         *)
 (*     http:// in the key gives TLS disabled.                              *)
-(*  S6 Unmarshal(Marshal(h)) = h on every field but the name, and          *)
-(*     Marshal is stable under another round trip.                         *)
+(*  S6 Unmarshal(Marshal(h)) = h on every field but the name, Marshal is    *)
+(*     stable under another round trip, and every field is written and     *)
+(*     read under its documented key.                                      *)
 (*                                                                         *)
 (* Nothing here depends on how the code gets there (key of the host map,   *)
 (* order of HEAD/GET, which mirror first): that is (D), HostConf.tla.      *)
@@ -120,6 +121,16 @@ FoldDefault(s, d) == [s EXCEPT !.defs = @ \cup {d}, !.lastdef = d]
 FoldHost(s, e) ==    LET T == RN(e.name) IN
                    IF T = "" THEN s
                    ELSE [s EXCEPT !.seen[T] = TRUE, !.al[T] = Upd(s, T, e, {})]
+
+\* an entry of the regctl config file (hosts.<name>): the file format defines tls as enabled and
+\* hostname as the registry name when they are not written; the loader may restate them
+FileRec(e) == LET T == RN(e.name) IN
+              [e EXCEPT !.tls = IF e.tls = "" THEN "enabled" ELSE e.tls,
+                        !.hostname = IF e.hostname = "" /\ T # "" THEN Builtin(T, "hostname") ELSE e.hostname]
+FileOpt(e) == (IF e.tls = "" THEN {"tls"} ELSE {}) \cup (IF e.hostname = "" THEN {"hostname"} ELSE {})
+FoldFile(s, e) == LET T == RN(e.name) IN
+                  IF T = "" THEN s
+                  ELSE [s EXCEPT !.seen[T] = TRUE, !.al[T] = Upd(s, T, FileRec(e), FileOpt(e))]
 
 \* S5: one entry of a docker config.json (auths entry with the helper named for its key, a
 \* credHelpers entry without auths entry, or an entry listed by the credsStore helper)
@@ -213,13 +224,9 @@ DoneBad(s, kind, r, addrs) ==
 \* request arrived), "tls-ok" (handshake completed), "tls-verify-fail" (the client refused the
 \* server certificate); the server of address a presents a certificate only regcert "ca-" a
 \* vouches for; ccert = label of the client certificate presented ("" none)
-CertOf(a) == CASE a = "r1.test" -> "ca-r1.test" [] a = "r2.test" -> "ca-r2.test"
-               [] a = "alt.test" -> "ca-alt.test" [] a = "u.test" -> "ca-u.test"
-               [] a = "m1.test" -> "ca-m1.test" [] OTHER -> "ca-other"
 ExpectConn(t, rc, a) == IF t = "disabled" THEN "plain"
                         ELSE IF t = "insecure" THEN "tls-ok"
                         ELSE IF rc = CertOf(a) THEN "tls-ok" ELSE "tls-verify-fail"
-KeyOf(cc) == CASE cc = "cc1" -> "ck1" [] cc = "cc2" -> "ck2" [] OTHER -> "none"
 TlsBad(s, r, o) ==
   LET T == RN(r) IN
   IF T = "" THEN "tooling: probe for a name that is not a registry"
@@ -279,11 +286,15 @@ NewNameBad(hasdef, d, n, r) ==
        <<\E f \in ObFields \ (CredFields \cup {"tls", "hostname", "credhost"}) : r[f] # D(f),
          "default: a new entry does not start with the host default / built-in default">> >>)
 
-\* h2 = Unmarshal(Marshal(h)), stable = 1 iff Marshal(h2) = Marshal(h) byte for byte  (S6)
-JsonBad(h, h2, stable) ==
+\* h2 = Unmarshal(Marshal(h)); stable = 1 iff Marshal(h2) = Marshal(h) byte for byte; hdoc = the
+\* fields found under their documented keys in Marshal(h) (generic JSON parse); hread = Unmarshal
+\* of a document written by hand with the documented keys  (S6)
+JsonBad(h, h2, hdoc, hread, stable) ==
   First(<<
     <<\E f \in Fields : h2[f] # h[f], "json: a field is lost or invented by Marshal/Unmarshal">>,
-    <<stable # 1, "json: Marshal(Unmarshal(x)) is not stable">> >>)
+    <<stable # 1, "json: Marshal(Unmarshal(x)) is not stable">>,
+    <<\E f \in Fields : hdoc[f] # h[f], "json: a field is not written under its documented key">>,
+    <<\E f \in Fields : hread[f] # h[f], "json: a documented key is not read">> >>)
 
 \* ------------------------------------------------------------------ actions
 Latch(b) == bad' = IF bad # "" THEN bad ELSE b
@@ -291,6 +302,7 @@ PInit == ps = PInitState /\ bad = ""
 PReset == ps' = PInitState /\ bad' = ""
 PDefault(d) == ps' = FoldDefault(ps, d) /\ UNCHANGED bad
 PSrcHost(e) == ps' = FoldHost(ps, e) /\ UNCHANGED bad
+PSrcFile(e) == ps' = FoldFile(ps, e) /\ UNCHANGED bad
 PSrcDocker(key, user, pass, token, helper) ==
   ps' = FoldDocker(ps, key, user, pass, token, helper) /\ UNCHANGED bad
 PReq(kind, r, o) == Latch(ReqBad(ps, kind, r, o)) /\ UNCHANGED ps
@@ -298,7 +310,7 @@ PDone(kind, r, addrs) == Latch(DoneBad(ps, kind, r, addrs)) /\ UNCHANGED ps
 PTls(r, o) == Latch(TlsBad(ps, r, o)) /\ UNCHANGED ps
 PMerge(b, n, a) == Latch(MergeBad(b, n, a)) /\ UNCHANGED ps
 PNewName(hasdef, d, n, r) == Latch(NewNameBad(hasdef, d, n, r)) /\ UNCHANGED ps
-PJson(h, h2, stable) == Latch(JsonBad(h, h2, stable)) /\ UNCHANGED ps
+PJson(h, h2, hdoc, hread, stable) == Latch(JsonBad(h, h2, hdoc, hread, stable)) /\ UNCHANGED ps
 PNote == UNCHANGED pvars
 
 Ok == bad = ""
